@@ -1,6 +1,7 @@
 package consul
 
 import (
+	"bytes"
 	"fmt"
 	"log"
 	"net"
@@ -9,6 +10,7 @@ import (
 	"strconv"
 	"strings"
 
+	routing "github.com/fabiolb/fabio/route"
 	"github.com/hashicorp/consul/api"
 )
 
@@ -93,11 +95,24 @@ func (r routecmd) build() []string {
 			if weight != "" {
 				cfg += " weight " + weight
 			}
+			// the route command language has no escaping inside quotes: write the
+			// values as they are (strconv.Quote would change them) and drop the
+			// registration below if the result is not a valid command
 			if len(svctags) > 0 {
-				cfg += " tags " + strconv.Quote(strings.Join(svctags, ","))
+				cfg += " tags \"" + strings.Join(svctags, ",") + "\""
 			}
 			if len(ropts) > 0 {
-				cfg += " opts " + strconv.Quote(strings.Join(ropts, " "))
+				cfg += " opts \"" + strings.Join(ropts, " ") + "\""
+			}
+
+			// a registration which cannot be expressed as a route command (weight
+			// which is not a number, quotes in tags or options, invalid glob, white
+			// space in the service name, ...) is dropped on its own. Otherwise the
+			// parser rejects the whole routing table and with it the routes of
+			// all other services.
+			if _, err := routing.NewTable(bytes.NewBufferString(cfg)); err != nil {
+				log.Printf("[WARN] consul: Skipping %s tag %q of service %q: %s", r.prefix, tag, name, err)
+				continue
 			}
 
 			config = append(config, cfg)
